@@ -233,7 +233,7 @@ pub fn run(cfg: &Cfg, rep: &mut Report) {
                         let size = if w % 5 == 0 { rng.range(1, 8) } else { rng.range(2, max_size) };
                         let mut shape = random_shape(&mut rng, size);
                         lbl(&mut shape, &mut rng);
-                        let how = *rng.pick(&["api", "bfs", "tomb", "parse", "merge2", "grown", "bottomup"]);
+                        let how = *rng.pick(&["api", "bfs", "tomb", "tomb2", "parse", "merge2", "grown", "bottomup"]);
                         if how == "merge2" {
                             while shape.kids.len() > 2 {
                                 shape.kids.pop();
